@@ -735,8 +735,9 @@ FIXED = {
     "fmt-docstring-escape": "34cdd80",
     "fmt-guard": "581b86c",
     "fmt-fstring-escape": "d511c20",
-    "fmt-if-expr": "61b9fa1"
-}   # finding id -> `fix:` commit (the last five: branch fix-c08c of /repo, to be remapped after cherry-pick)
+    "fmt-if-expr": "61b9fa1",
+    "fmt-float-nonfinite": "debec2a",   # the lexer now rejects a float literal that overflows f64 (C11's repair): no parsed program contains one
+}   # finding id -> `fix:` commit
 
 
 def _kf(prop, fid, cls, witness, summary, why, fix):
@@ -812,7 +813,7 @@ PROPOSED_C09 = [
     _kf("C09", "fmt-arm-trailing-space", "one line ending in \"=> \" per match arm whose body is a block",
         "def f(n: int) -> int:\n    match n:\n        case 0:\n            return 1\n        _ => 0\n", "block-bodied match arms are printed `pattern => ` + newline: trailing whitespace",
         "fix candidate", "yes: write \" =>\" and add the space only before an expression body"),
-    _kf("C09", "fmt-not-reparsable", "the file contains a construct of one of C08's listed open classes whose printed form does not re-parse or re-parses differently (fmt-compound-desugar, fmt-match-operand, fmt-float-nonfinite)",
+    _kf("C09", "fmt-not-reparsable", "the file contains a construct of one of C08's listed open classes whose printed form does not re-parse or re-parses differently (fmt-compound-desugar, fmt-match-operand)",
         "def f() -> None:\n    match a:\n        b => 1\n    -1\n", "fmt(fmt(x)) is an error / differs and `--check` after `fmt` fails exactly when fmt(x) is outside the parser's language (inherits C08's open findings, all rooted in the parser)",
         "see the C08 entries", "see the C08 entries"),
 ]
